@@ -3,6 +3,7 @@ CONSTANTS
   Orders = {"queue_first", "signal_first"}
   Standbys = {FALSE}
   TimerMays = {FALSE}
+  LazyCaller = FALSE
   EagerCaller = FALSE
   WithHist = FALSE
   EnvCancel = TRUE
